@@ -14,6 +14,30 @@ def parsePad? (s : String) : Option Padding :=
 def errName : Err → String
   | .badDecoding => "BadDecodingError"
   | .badEncoding => "BadEncodingError"
+  | .badIdentityTokenInvalid => "BadIdentityTokenInvalid"
+
+def parsePolicy? (s : String) : Option Policy :=
+  if s = "none" then some .none
+  else if s = "basic128rsa15" then some .basic128Rsa15
+  else if s = "basic256" then some .basic256
+  else if s = "basic256sha256" then some .basic256Sha256
+  else if s = "aes128sha256rsaoaep" then some .aes128Sha256RsaOaep
+  else if s = "aes256sha256rsapss" then some .aes256Sha256RsaPss
+  else if s = "unknown" then some .unknown
+  else Option.none
+
+/-- user token policy URI: `-` = null/empty, `bogus` = an unrecognised URI, else a policy's URI -/
+def parseTokenPolicy? (s : String) : Option (Option Policy) :=
+  if s = "-" then some Option.none
+  else if s = "bogus" then some (some .unknown)
+  else (parsePolicy? s).map some
+
+def algName : TokAlg → String
+  | .empty => "-"
+  | .uri .rsa15 => "rsa15"
+  | .uri .rsaOaep => "rsaoaep"
+  | .uri .rsaOaepSha256 => "rsaoaep256"
+  | .other => "other"
 
 /-- `detail = true`: the error class is deterministic (the RSA layer is known to succeed) -/
 def showDec (detail : Bool) (clen : Nat) : Outcome Bytes → String
@@ -69,6 +93,18 @@ def dstep (s : DState) (toks : List String) : DState × String :=
     match hexToBytes c, hexToBytes n with
     | some c, some n => (s, showDec false c.length (decrypt r s.pad (some c) n))
     | _, _ => (s, "bad-op")
+  | ["tok", chan, tp, pw, n] =>
+    match parsePolicy? chan, parseTokenPolicy? tp, hexToBytes (pw.drop 1).toString, hexToBytes n with
+    | some chan, some tp, some pw, some n =>
+      match makeToken r 0 chan tp n pw with
+      | .ok (field, alg) =>
+        match decryptToken r (some field) alg n with
+        | .ok p => (s, s!"ok {algName alg} {field.length} ok s{bytesToHex p}")
+        | .err e => (s, s!"ok {algName alg} {field.length} err {errName e}")
+        | .panic => (s, "panic")
+      | .err _ => (s, "err enc")
+      | .panic => (s, "panic")
+    | _, _, _, _ => (s, "bad-op")
   | ["mut", kind, p, pw, n] =>
     match p.toNat?, hexToBytes (pw.drop 1).toString, hexToBytes n with
     | some p, some pw, some n =>
